@@ -108,14 +108,17 @@ func runC05(w *fw.Worker) {
 		var wg sync.WaitGroup
 		var evMu sync.Mutex
 		var evPtrs []*conc.Cfg
+		var evViewAfter []uint64 // serial read from ViewVersion right after each Events receipt
 		wg.Add(1)
 		go func() {
 			defer wg.Done()
 			for {
 				select {
 				case c := <-e.D.Events():
+					_, tok := e.D.ViewVersion()
 					evMu.Lock()
 					evPtrs = append(evPtrs, c)
+					evViewAfter = append(evViewAfter, conc.SerialOf(tok))
 					evMu.Unlock()
 				case <-stop:
 					return
@@ -331,10 +334,15 @@ func runC05(w *fw.Worker) {
 			ser[in.Cfg] = in.Serial
 		}
 		lastS := uint64(0)
-		for _, p := range evPtrs {
+		for k, p := range evPtrs {
 			s, ok := ser[p]
 			if !ok {
 				w.Violation(i, "events-value-never-installed", fmt.Sprintf("Events delivered %+v which the install log does not contain", conc.FPOf(p)), nil)
+				break
+			}
+			if evViewAfter[k] < s {
+				// one reader, two observation points: what Events delivered is already older than what View shows next
+				w.Violation(i, "view-older-than-the-version-events-just-delivered", fmt.Sprintf("Events delivered serial %d; the ViewVersion read right after it returned serial %d", s, evViewAfter[k]), nil)
 				break
 			}
 			if s <= lastS {
